@@ -9,6 +9,8 @@ import TongoProofs.Lemmas.JsonAddr
 import TongoProofs.Lemmas.JsonEnvelope
 import TongoProofs.C01
 import TongoProofs.C07
+import TongoProofs.C17
+import TongoProofs.Lemmas.JsonFiftBridge
 /-! Property C20 — JSON forms of chain values parse back to the same value.
 Property theorems only. The printers/parsers are the functions of `TongoModel/Json.lean` (tied to the Go methods by
 the correspondence check and, for the ~170 generated types, by the regenerated table `TongoGen.IntJson`). -/
@@ -322,10 +324,9 @@ theorem json_roundtrip_via_string {α} (toText : α → Str) (ofText : Str → O
 
 /-! ## cells and message-body envelopes -/
 
-/-- boc.Cell / tlb.Any, through the BOC model of C01: the JSON text of a cell — `"` + hex of what serializeBoc writes
-for the writer's order `(t, [root])` of the cell — parses back (Trim, hex.DecodeString, DeserializeBoc, one root) to
-exactly that table and root. The premise that remains is C01's `order_valid` (the order computed by the Go writer
-is a valid layout, `hv`); `hn`/`hlen` are the size limits of the format. -/
+/-- boc.Cell / tlb.Any for an ALREADY ORDERED table (building block of `json_roundtrip_cell_go_writer` below): `"` + hex
+of what serializeBoc's header arithmetic writes for `(t, [root])` parses back (Trim, hex.DecodeString, DeserializeBoc,
+one root) to exactly that table and root. `hv`: the table is a valid layout; `hn`/`hlen`: size limits of the format. -/
 theorem json_roundtrip_cell (t : Table) (root : Nat) (hv : Boc.ValidLayout t [root]) (hn : t.size < 16777216)
     (hlen : (Boc.Writer.serializeOrdered t [root] false false false []).length < Boc.two63) :
     parseCellJson (printCellJsonOrdered t root) = .ok (t, root) := by
@@ -334,6 +335,46 @@ theorem json_roundtrip_cell (t : Table) (root : Nat) (hv : Boc.ValidLayout t [ro
   rw [trimQuote_quote _ (fun c hc => lowerHex_ne c '"' (hexLower_chars _ c hc) (by decide)), decodeChars_hexLower]
   simp only []
   rw [C01.roundtrip t [root] false false false [] hv hn (by simp) (by simp; omega) hlen]
+
+/-- **boc.Cell / tlb.Any through the whole Go writer** (C01 `roundtrip_go_writer`: the order of
+importCell/reorderCells/revisit is a theorem, `order_valid`): Cell.MarshalJSON of the cell given as root of any valid
+table succeeds, and Cell.UnmarshalJSON of that text returns one cell that unfolds to the SAME tree. Premises: `hk` — the
+writer's de-duplication key (hex representation hash) identifies the sub-cells (no hash collision inside this one
+cell); the size limits of the format for the ordered table. -/
+theorem json_roundtrip_cell_go_writer {K : Type} [BEq K] [Hashable K] [LawfulBEq K] (t : Table) (root : Nat)
+    (key : Nat → Option K) (hv : Boc.ValidLayout t [root]) (hk : Boc.Order.KeyInjOn t key) :
+    ∃ (o : Boc.Order.Ordered) (txt : Str), printCellJsonGo t key root = .ok txt ∧
+      (o.table.size < 16777216 → txt.length < Boc.two63 →
+        ∃ r, parseCellJson txt = .ok (o.table, r) ∧
+          Table.unfold o.table (o.table.size + 1) r = Table.unfold t (t.size + 1) root) := by
+  obtain ⟨o, bs, _, hser, hval, hparse⟩ := C01.roundtrip_go_writer t [root] key false false false hv hk
+  refine ⟨o, quote (hexLower bs), by simp [printCellJsonGo, hser, Outcome.bind], ?_⟩
+  intro hn hl
+  have hroots : o.roots.map (Table.unfold o.table (o.table.size + 1)) = [Table.unfold t (t.size + 1) root] := by
+    rw [hval.roots_eq]; rfl
+  have hlen1 : o.roots.length = 1 := by
+    have := congrArg List.length hroots
+    simpa using this
+  match ho : o.roots, hlen1 with
+  | [r], _ =>
+    have hr : [Table.unfold o.table (o.table.size + 1) r] = [Table.unfold t (t.size + 1) root] := by
+      rw [ho] at hroots; simpa using hroots
+    have hrlt : r < o.table.size := hval.valid.1.2.1 r (by rw [ho]; simp)
+    have hbs : bs.length < Boc.two63 := by
+      have : (quote (hexLower bs)).length = 2 * bs.length + 2 := by simp [quote, hexLower_length]
+      omega
+    have hp := hparse hn (by simp) (by simp; omega) hbs
+    refine ⟨r, ?_, by simpa using hr⟩
+    unfold parseCellJson
+    rw [trimQuote_quote _ (fun c hc => lowerHex_ne c '"' (hexLower_chars _ c hc) (by decide)), decodeChars_hexLower]
+    simp only []
+    rw [hp, ho]
+
+/-- ton.AccountID: its JSON form (json.Marshal of the raw form / json.Unmarshal into a string, then ParseAccountID) is
+modelled byte-wise by the addr slice; the concrete round trip is C17 `json_roundtrip`, re-stated here so that the
+type is covered by a theorem of this property (`json_roundtrip_via_string` is the generic wrapper form) -/
+theorem json_roundtrip_accountid (a : Address.AccountID) (h : a.WF) : Address.fromJSON (Address.toJSON a) = .ok a :=
+  C17.json_roundtrip a h
 
 /-- abi.InMsgBody / abi.ExtOutMsgBody: the empty body -/
 theorem json_roundtrip_envelope_empty {C V} (pc : C → Str) (pk : V → Str) (parseCell : Str → Outcome C)
@@ -363,6 +404,28 @@ theorem json_roundtrip_envelope_known {C V} (pc : C → Str) (pk : V → Str) (p
   unfold parseEnvelope printEnvelope
   rw [unmarshalEnvelope_envText name hs ha op hop (pk v) hvt]
   simp [Outcome.bind, hne, hnu, hreg, hk]
+
+/-- `json_roundtrip_envelope_known` INSTANTIATED on a body type whose JSON is modelled — the composite record
+tlb.Anycast through encoding/json's struct codec, standing for a registered body type `name` (the real registered
+types are larger records of the same kind; their struct-level JSON is not modelled): all hypotheses of the wrapper
+theorem are discharged. -/
+theorem json_roundtrip_envelope_known_record {C} (pc : C → Str) (parseCell : Str → Outcome C)
+    (parseKnown : Str → Option (Str → Outcome Anycast)) (name : Str) (op : Option Nat) (a : Anycast)
+    (hs : ∀ c ∈ name, isSafe c = true) (has : ∀ c ∈ name, isAscii c = true) (hne : name ≠ []) (hnu : name ≠ unknownName)
+    (hop : ∀ n, op = some n → n < 2 ^ 32) (hreg : parseKnown name = some parseAnycastJson)
+    (hd : a.depth < 2 ^ 32) (hp : a.pfx < 2 ^ 32) :
+    parseEnvelope parseCell parseKnown (printEnvelope pc printAnycastJson (.known name op a)) = .ok (.known name op a) :=
+  json_roundtrip_envelope_known pc printAnycastJson parseCell parseKnown name op a parseAnycastJson hs has hne hnu hop
+    (valueText_printAnycastJson a) hreg (parseAnycastJson_print a hd hp)
+
+/-- the two models of Fift hex agree: the printer / parser used by the JSON forms of BitString and MsgAddress are the
+specification functions against which C06 proves the byte-level `ToFiftHex` / `BitStringFromFiftHex`
+(`C06.toFiftHex_spec`, `C06.fifthex_parse_spec`); in particular the `panic "index out of range"` branch of `fromFift`
+is unreachable -/
+theorem fift_models_agree (l : List Bool) (s : List Char) :
+    toFift l = BitString.fiftSpec l ∧
+    fromFift s = (match BitString.fiftParse s with | some l => .ok l | none => .err "invalid hex") :=
+  ⟨toFift_eq_fiftSpec l, fromFift_eq_fiftParse s⟩
 
 /-- the "Unknown" body with the cell codec of the BOC model, end to end -/
 theorem json_roundtrip_unknown_body_cell {V} (pk : V → Str) (parseKnown : Str → Option (Str → Outcome V))
@@ -422,8 +485,13 @@ theorem json_valid :
   ⟨valid_printUintN, valid_printIntN, valid_printBig, valid_printBitsN, valid_printBitsN, valid_printGrams,
    valid_printSignedCoins, valid_printMagic, valid_printBitString, valid_printMsgAddr, valid_printMaybe⟩
 
-/-- no parser panics, whatever bytes it is given (the model keeps Go's panic points explicit: the slice expression
-in the Anycast branch, indexing in the Fift suffix lookup) -/
+/-- no parser panics, whatever bytes it is given. MOSTLY BY CONSTRUCTION, faithfully to Go: the parsers of the integer
+families, big integers, BitsN, ton.Bits256, tl.Int256, Grams, SignedCoins, Magic and Maybe have no panic point in
+the Go code (strconv, hex, fmt scanning and encoding/json return errors) and none in the model — their conjuncts hold
+because no path constructs `panic`. The conjuncts with content are `parseBitString` / `parseMsgAddr`: the index
+`hexRepr[len-2:]` in the Fift suffix lookup and the slice `parts[2][8:len-1]` of the Anycast branch are explicit panic
+points of the model, shown unreachable (`fromFift_total`, `goSlice_anycast`); Cell/Any: `json_parse_total_cell` (C07);
+envelopes: `json_parse_total_envelope`; ton.AccountID malformed input: direct oracle only. -/
 theorem json_parse_total (p : Str) :
     (∀ bits, (parseUintN bits p).isPanic = false) ∧ (∀ bits, (parseIntN bits p).isPanic = false) ∧
     (parseBigJson p).isPanic = false ∧ (∀ n, (parseBitsN n p).isPanic = false) ∧
